@@ -59,6 +59,12 @@ NATIVE_UNITS = {
     "library_instance_known": {"file": "src/interpreter/interpreter.rs", "source": "library_instances.rs",
                                "modpath": "interpreter::interpreter", "test": "verif_native_library_instance_known", "role": "known",
                                "finding": "library-instantiated-per-import"},
+    "tail_space_witness": {"file": "src/interpreter/interpreter.rs", "source": "tail_space.rs",
+                           "modpath": "interpreter::interpreter", "test": "verif_native_tail_space_witness", "role": "witness",
+                           "for_fns": ["eval_tail_expression", "eval_owned_tail_expression", "apply_procedure", "eval_procedure_call"]},
+    "apply_tail_known": {"file": "src/interpreter/interpreter.rs", "source": "tail_space.rs",
+                         "modpath": "interpreter::interpreter", "test": "verif_native_apply_tail_known", "role": "known",
+                         "finding": "apply-not-a-tail-call"},
     "tail_arity_panic": {"file": "src/interpreter/interpreter.rs", "source": "tail_arity.rs",
                          "modpath": "interpreter::interpreter", "test": "verif_native_tail_arity_panic",
                          "role": "witness", "for_fns": ["apply_procedure"]},
@@ -213,7 +219,7 @@ PROPS = {
         "assumptions": ["kani::stub: RandomState::new replaced by fixed keys (no hashing happens on the verified arms)"],
     },
     "C02": {
-        "verus": ["interp_tail"], "kani": [], "native": [],
+        "verus": ["interp_tail"], "kani": [], "native": ["tail_space_witness", "apply_tail_known"],
         "level": "proof",
         "explanation": "eval_tail_expression / eval_owned_tail_expression are proved to RETURN a call in tail position (same operator, "
                        "operands and frame) instead of performing it, to evaluate only the test of a tail `if`, and to select the arm "
